@@ -14,8 +14,11 @@ import traceback
 
 HERE = os.path.dirname(os.path.dirname(os.path.abspath(__file__)))
 REPO = os.environ.get("VERIF_REPO", "/repo")
-EVID = os.path.join(HERE, "evidence")
-REPLAYS = os.path.join(HERE, "replays")
+# runs against a scratch tree (VERIF_REPO=<dir>, used for seeded changes) must not overwrite the
+# evidence of /repo itself
+_SCRATCH = os.path.realpath(REPO) != "/repo"
+EVID = os.path.join(HERE, "evidence") if not _SCRATCH else os.path.join("/tmp", "verif_scratch_evidence")
+REPLAYS = os.path.join(HERE, "replays") if not _SCRATCH else os.path.join("/tmp", "verif_scratch_replays")
 KNOWN = os.path.join(HERE, "known_findings.json")
 
 EXIT_OK, EXIT_VIOLATION, EXIT_UNDECIDED, EXIT_ERROR = 0, 1, 2, 3
